@@ -181,7 +181,7 @@ def obligations(tier: str):
 
     add("crossover", "tree_crossover_f11_concrete_start", fixture="f11", rep="tree", decider="grow", max_depth=3, timeout=200)
     add("crossover", "tree_crossover_f1_d1", fixture="f1", rep="tree", decider="grow", max_depth=1, timeout=60)
-    for fxn in ("f0",) + (("f1", "f3", "f2") if T else ()):
+    for fxn in ("f0",) + (("f1", "f3") if T else ()):  # f2 (lists): 1700+ paths, not exhausted in 1200 s
         add("crossover", f"tree_crossover_{fxn}", fixture=fxn, rep="tree", decider="grow", max_depth=2, timeout=60)
     for rep in ("ge", "stack"):
         gl = 8 if T else 4
